@@ -166,6 +166,7 @@ def parents(node, stop):
 
 
 def in_positive_branch(node, stop, pred):
+    node = getattr(node, "_origin", node)
     child, p = node, getattr(node, "_parent", None)
     while p is not None and p is not stop:
         if isinstance(p, ast.If) and child in p.body and pred(ast.unparse(p.test)):
